@@ -1,17 +1,17 @@
 SPECIFICATION Spec
 CONSTANTS
-  Gor = {"g1", "g2", "g3"}
+  Gor = {"g1", "g2"}
   Eps = {"E"}
   Svcs = {"e"}
   Adv <- AdvAll
   MaxReq = 1
-  MaxLoss = 0
+  MaxLoss = 1
   AuthMayRefuse = FALSE
-  Dev_RUnlockUnderWriteLock = TRUE
+  Dev_RUnlockUnderWriteLock = FALSE
   Dev_NilChannelWhenAllSkipped = FALSE
   Dev_AuthFailureLeaksConnection = FALSE
-  Dev_DeadClientStaysInPool = FALSE
+  Dev_DeadClientStaysInPool = TRUE
   Dev_PoolKeyedByAdvertised = FALSE
   Dev_CloserBeforeInsert = FALSE
-INVARIANTS TypeOK NoBadUnlock NoDeadlock
+INVARIANTS TypeOK PoolHoldsLiveClients
 CHECK_DEADLOCK FALSE
